@@ -287,4 +287,5 @@ FIXED = [
     "fixed: property=C14 6feeb94 argparse parser: add_argument('-n', '--name') returned a parameter with the empty name (and a positional 'name' the name 'me'): two characters were cut off the first option string",
     "fixed: property=C14 520cde0 live function/class (inspect path): a builtin annotation came back as the type \"<class 'int'>\" (not an expression), 'str' as 'r'",
     "fixed: property=C14 4aca4fd live class without a docstring: the result had no 'doc' key (and no 'returns')",
+    "fixed: property=C14 4849e1b NumPy docstring with a named return ('result : Dict[str, int]' under Returns): the whole line became the return type, which is not a Python expression",
 ]
